@@ -17,7 +17,8 @@ META = dict(
     title="Fields are immutable once constructed",
     technique="shadow-digest monitor over generated construct/write histories",
     rule=("history = 2-6 field constructions through all public constructors, each followed by "
-          "3-10 write attempts through randomly chosen handles (source ndarray/AnyArray, val, raw, "
+          "3-10 write attempts through randomly chosen handles (source ndarray incl. 0-d arrays and ndarray "
+          "subclasses / source AnyArray, val, raw, "
           "asnumpy, val.val, views, reshapes, slices, real/imag, T, conjugate) with random "
           "in-place operations; after every attempt all live fields are re-hashed. "
           "non-trivial: >=2 constructions, >=1 write through a source array and >=1 through a "
@@ -49,7 +50,24 @@ def digest(f):
 # ------------------------------------------------------------ constructors ---
 CTORS = ["Field_nd", "Field_any", "from_raw", "makeField", "full", "from_random", "cast_domain",
          "astype", "arith", "real", "imag", "conjugate", "mf_from_dict", "mf_from_raw", "scalar",
-         "ptw", "makeField_dict", "Field_nd_F", "neg", "weight"]
+         "ptw", "makeField_dict", "Field_nd_F", "neg", "weight",
+         "from_raw_0d", "makeField_0d", "Field_nd_0d", "Field_any_0d", "mf_from_raw_0d"]
+
+
+class _SubArr(np.ndarray):
+    """user-defined ndarray subclass (valid input: isinstance(x, np.ndarray))"""
+
+
+def as_source_variant(rng, a):
+    """the array a user passes in may be an ndarray subclass"""
+    r = int(rng.integers(0, 6))
+    if r == 0:
+        return a.view(_SubArr), "subclass"
+    if r == 1:
+        return np.ma.masked_array(a), "masked"
+    if r == 2 and a.ndim == 2:
+        return np.asmatrix(a), "matrix"
+    return a, "plain"
 
 
 def construct(ift, rng, kind, fields):
@@ -59,6 +77,30 @@ def construct(ift, rng, kind, fields):
     dt = "c" if rng.integers(0, 3) == 0 else "f"
     a = gen_array(rng, dom.shape, dt)
     src = []
+    if kind.endswith("_0d"):
+        sdom = ift.DomainTuple.scalar_domain()
+        a0 = np.array(float(rng.standard_normal()))          # 0-d source array
+        if kind == "from_raw_0d":
+            f = ift.Field.from_raw(sdom, a0)
+            src = [("src_nd", a0)]
+        elif kind == "makeField_0d":
+            f = ift.makeField(sdom, a0)
+            src = [("src_nd", a0)]
+        elif kind == "Field_nd_0d":
+            f = ift.Field(sdom, a0)
+            src = [("src_nd", a0)]
+        elif kind == "Field_any_0d":
+            aa = ift.AnyArray(a0)
+            f = ift.Field.from_raw(sdom, aa)
+            src = [("src_any", aa), ("src_nd", a0)]
+        else:
+            md = ift.MultiDomain.make({"a": sdom, "b": dom})
+            f = ift.MultiField.from_raw(md, {"a": a0, "b": a})
+            src = [("src_nd", a0), ("src_nd", a)]
+        new = [f] + (list(f.values()) if isinstance(f, ift.MultiField) else [])
+        return new, src
+    if kind in ("Field_nd", "from_raw", "makeField", "Field_any"):
+        a, variant = as_source_variant(rng, a)
     if kind == "Field_nd":
         f = ift.Field(dom, a)
         src = [("src_nd", a)]
